@@ -24,6 +24,8 @@ def _pad(code, seq):
     return (code.ljust(72) + seq) if seq else code
 
 
+_WIDE = "call foo(" + " " * (66 - len("call foo(") - 2) + "a,"   # exactly columns 7..72
+
 # (line text, label, code)  — first statement line of a continued statement
 FIRST = [
     ("      x = 1 +", "", "x = 1 +"),
@@ -38,6 +40,9 @@ FIRST = [
     # a backslash is an ordinary character of a Fortran literal: the literal ends at the quote that follows it
     ("      s = 'C:\\' //", "", "s = 'C:\\' //"),
     (_pad("      s = 'a\\' //", "SEQ00030"), "", "s = 'a\\' //"),
+    # labelled statement whose text runs up to column 72, followed by sequence-field text
+    (_pad("   20 " + _WIDE, "SEQ00040"), "20", _WIDE),
+    (_pad("      " + _WIDE, "SEQ00050"), "", _WIDE),
 ]
 BETWEEN = [None, "C a comment", "c another", "* starred", "! banged", "", "      ", "C", "*     x = 9", "!     &  77"]
 # (line text, is_continuation, code)
